@@ -23,19 +23,21 @@ FORMATS = ["csv", "tsv", "json", "dkvp", "nidx", "xtab", "pprint", "markdown", "
 # ---- the representative of every token class (rendering only) ---------------------------------------------------
 BASE = {"LF": "\n", "CR": "\r", "Q": '"', "BS": "\\", "TAB": "\t", "SP": " ", "HASH": "#", "U2": "é", "U4": "\U0001F600",
         "DASH": "-", "PIPE": "|", "PLUS": "+", "SLASH": "/", "C1": "\x01", "BSP": "\x08", "FF": "\x0c", "COMMA": ",",
-        "COLON": ":", "EQ": "=", "LBRACE": "{", "RBRACE": "}", "LBRACK": "[", "RBRACK": "]", "BOM": "\ufeff"}
+        "COLON": ":", "EQ": "=", "LBRACE": "{", "RBRACE": "}", "LBRACK": "[", "RBRACK": "]", "BOM": "\ufeff",
+        # white space that is NOT the separator space U+0020: no-break space, ideographic space, em space
+        "NBSP": "\u00a0", "IDSP": "\u3000", "EMSP": "\u2003"}
 SELF = "abcdefghijklmnopqrstuvwxyz0123456789ABCDEF"
 NAMED = {
-    "csv": ["FS", "Q", "CR", "LF", "SP", "BS", "TAB", "HASH", "U2", "U4", "BOM"],
-    "tsv": ["TAB", "LF", "CR", "BS", "Q", "SP", "U2", "U4", "HASH"],
+    "csv": ["NBSP", "IDSP", "EMSP", "FS", "Q", "CR", "LF", "SP", "BS", "TAB", "HASH", "U2", "U4", "BOM"],
+    "tsv": ["NBSP", "IDSP", "EMSP", "TAB", "LF", "CR", "BS", "Q", "SP", "U2", "U4", "HASH"],
     "json": ["Q", "BS", "LF", "CR", "TAB", "C1", "BSP", "FF", "SLASH", "U2", "U4", "COMMA", "COLON", "LBRACE", "RBRACE",
              "LBRACK", "RBRACK", "SP"],
-    "dkvp": ["FS", "PS", "LF", "CR", "Q", "SP", "BS", "TAB", "HASH", "U2", "U4"],
-    "nidx": ["FS", "LF", "CR", "Q", "BS", "TAB", "HASH", "U2", "U4", "EQ", "COMMA", "SP"],
-    "xtab": ["PS", "LF", "CR", "Q", "BS", "TAB", "HASH", "U2", "U4", "EQ", "COMMA"],
-    "pprint": ["FS", "Q", "BS", "HASH", "U2", "U4", "DASH", "PIPE", "PLUS", "EQ", "COMMA", "LF", "CR", "TAB"],
-    "markdown": ["FS", "Q", "BS", "HASH", "U2", "U4", "DASH", "PIPE", "COLON", "LF", "CR", "TAB"],
-    "csvlite": ["FS", "Q", "CR", "LF", "SP", "BS", "TAB", "HASH", "U2", "U4", "BOM"],
+    "dkvp": ["NBSP", "IDSP", "EMSP", "FS", "PS", "LF", "CR", "Q", "SP", "BS", "TAB", "HASH", "U2", "U4"],
+    "nidx": ["NBSP", "IDSP", "EMSP", "FS", "LF", "CR", "Q", "BS", "TAB", "HASH", "U2", "U4", "EQ", "COMMA", "SP"],
+    "xtab": ["NBSP", "IDSP", "EMSP", "PS", "LF", "CR", "Q", "BS", "TAB", "HASH", "U2", "U4", "EQ", "COMMA"],
+    "pprint": ["NBSP", "IDSP", "EMSP", "FS", "Q", "BS", "HASH", "U2", "U4", "DASH", "PIPE", "PLUS", "EQ", "COMMA", "LF", "CR", "TAB"],
+    "markdown": ["NBSP", "IDSP", "EMSP", "FS", "Q", "BS", "HASH", "U2", "U4", "DASH", "PIPE", "COLON", "LF", "CR", "TAB"],
+    "csvlite": ["NBSP", "IDSP", "EMSP", "FS", "Q", "CR", "LF", "SP", "BS", "TAB", "HASH", "U2", "U4", "BOM"],
 }
 # the separators in use: (FS, PS) per format and variant
 SEPS = {
